@@ -244,6 +244,12 @@ class Tensor:
     def _get_index_mapping(self, index: TensorIndex) -> list[int | None]:
         # a boolean scalar (e.g. the result of a test on a single object) adds a new axis like None
         index_tuple = index if isinstance(index, tuple) else (index,)
+        # a boolean mask over k axes is equivalent to the k index arrays mask.nonzero()
+        index_tuple = tuple(
+            j
+            for i in index_tuple
+            for j in (i.nonzero() if isinstance(i, np.ndarray) and i.dtype == bool and i.ndim > 1 else (i,))
+        )
         index = tuple(
             None if isinstance(i, (bool, np.bool_)) or (isinstance(i, np.ndarray) and i.ndim == 0 and i.dtype == bool) else i
             for i in index_tuple
